@@ -27,6 +27,7 @@ def evaluate(c, r):
         if r["error"].startswith("constructor"):
             return [("constructor-rejects", -1, r["error"][:200])]
         return [("harness-error", -1, r["error"][-300:])]
+    V += eigen_violations(r.get("eigen_res"), -1)
     rate = bool(c.get("rate"))
     yk = (c.get("yield") or {}).get("kind")
     custom = (c.get("hardening") or {}).get("kind") == "Softening"
@@ -187,14 +188,36 @@ def evaluate_batch(c, r):
     return V
 
 
+EIG_TOL = 1e-9     # relative; eigh/inv round-off on a 6x6 SPD matrix with cond <= 1e3 is ~1e-13
+
+
+def eigen_violations(res, where):
+    V = []
+    if res:
+        bad = {k: v for k, v in res.items() if not (v <= EIG_TOL)}
+        if bad:
+            V.append(("eigen-decomposition-inconsistent", where, "identities of the spectral decomposition handed to _spectral.Solve fail: %s (Ti T = I, Cinv C = I, T'PT = diag(lam), T'Cinv T = I)" % ", ".join("%s=%.2e" % kv for kv in sorted(bad.items()))))
+    return V
+
+
 def evaluate_memo(c, r):
     if r.get("error"):
         return [("harness-error", -1, r["error"][-300:])]
     V = []
-    if not r["changed_equals_fresh"]:
-        V.append(("stale-after-parameter-change", 0, "Integrate after changing (E, v) differs from a Behavior built with the new values: max|dsig| = %.3e (|sig| = %.3e)" % (r["dsig"], r["scale"])))
-    if not r["back_equals_first"]:
-        V.append(("stale-after-parameter-change", 1, "changing (E, v) back does not give the first result again"))
+    mode = r.get("law_change", "params")
+    if mode == "params":
+        # same constructor path on both sides: bit-for-bit
+        if not r["changed_equals_fresh"]:
+            V.append(("stale-after-parameter-change", 0, "Integrate after changing (E, v) differs from a Behavior built with the new values: max|dsig| = %.3e (|sig| = %.3e)" % (r["dsig"], r["scale"])))
+        if not r["back_equals_first"]:
+            V.append(("stale-after-parameter-change", 1, "changing (E, v) back does not give the first result again"))
+    else:
+        # the law is changed through %s; the fresh law goes through the constructor's basis change,
+        # so equality is required to 1e-10 relative rather than bitwise
+        tol = 1e-10 * max(r["scale"], 1e-300)
+        if r["dsig"] > tol or r["dz"] > 1e-12 or r["dsig_back"] > tol:
+            V.append(("stale-after-law-change", 0, "law changed by %s: Integrate differs from a Behavior built afresh on the new stiffness: max|dsig| = %.3e, max|dz| = %.3e, back-change |dsig| = %.3e (|sig| = %.3e)" % (mode, r["dsig"], r["dz"], r["dsig_back"], r["scale"])))
+    V += eigen_violations(r.get("eigen_res_changed"), 0)
     return V
 
 
@@ -223,7 +246,7 @@ def evaluate_units(cb, rb, cs, rs):
         n6 = max(max(abs(x) for x in a["sig6"]), sy)
         d = max(abs(x * s - y) for x, y in zip(a["sig6"], b["sig6"])) / s
         if d > tol * n6:
-            V.append(("not-unit-invariant", k, "stress scaled by %g: |sig_s/s - sig| = %.3e (|sig| = %.3e, sigma_y = %.4g -> %.4g)" % (s, d, n6, sy, sys_)))
+            V.append(("not-unit-invariant", k, "stress scaled by %g%s: |sig_s/s - sig| = %.3e (|sig| = %.3e, sigma_y = %.4g -> %.4g)" % (s, (", time scaled by %g" % cs["time_scale"]) if cs.get("time_scale") else "", d, n6, sy, sys_)))
             break
         if "dp" in a:
             pe = max(abs(a["p"]), cb["eps_y"])
